@@ -26,7 +26,7 @@ def run_one(sid, verify=False):
         if r.returncode != 0:
             out["error"] = "patch does not apply: " + r.stderr[:300]
             return out
-        env = dict(os.environ, HOME=os.path.join(tmp, "home"), PYTHONPATH=os.path.join(wt, "src"))
+        env = dict(os.environ, HOME=os.path.join(tmp, "home"), PYTHONPATH=os.path.join(wt, "src"), MPLBACKEND="Agg")
         os.makedirs(env["HOME"], exist_ok=True)
         if verify:
             t = subprocess.run([PY, "-m", "pytest", "-q", "-p", "no:cacheprovider", "test"], cwd=wt, env=env, capture_output=True, text=True)
@@ -34,9 +34,11 @@ def run_one(sid, verify=False):
             demo = os.path.join(d, meta.get("demo", "demo.py"))
             dm = subprocess.run([PY, demo], cwd=tmp, env=env, capture_output=True, text=True)
             out["demo_on_mutant_exit"] = dm.returncode
+            out["demo_on_mutant_says"] = "FAIL" if "FAIL" in dm.stdout else ("PASS" if "PASS" in dm.stdout else "?")
             env0 = dict(env, PYTHONPATH="/repo/src")
             d0 = subprocess.run([PY, demo], cwd=tmp, env=env0, capture_output=True, text=True)
             out["demo_on_clean_exit"] = d0.returncode
+            out["demo_on_clean_says"] = "FAIL" if "FAIL" in d0.stdout else ("PASS" if "PASS" in d0.stdout else "?")
         props = meta.get("checks", [meta["property"]])
         out["checks"] = {}
         for prop in props:
